@@ -14,6 +14,97 @@ fn tol(y0: f64, y1: f64, m: &Q, xa: f64, xb: f64, extra_x: f64) -> Q {
     q(y0).abs().add(&q(y1).abs()).add(&m.abs().mul(&q(xa).abs().add(&q(xb).abs()).add(&q(extra_x).abs()))).mul(&q(2f64.powi(-47)))
 }
 
+fn check_list(xs: &[f64], ys: &[f64], cx: &mut Cx) -> Verdict {
+    let n = xs.len();
+    let knots: Vec<Knot> = xs.iter().zip(ys.iter()).map(|(&x, &y)| Knot { x, y }).collect();
+    let detail = |obs: serde_json::Value| json!({"knots_x": fjs(&xs), "knots_y": fjs(&ys), "observation": obs});
+    let r = guard(|| linear(&knots));
+    cx.evals(1);
+    let pw = match r {
+        Ok(p) => p,
+        Err(p) => return Err(Fail::new(format!("linear() panicked on >= 2 finite knots: {p}"), detail(json!(p)))),
+    };
+    // forced abscissae = running maximum
+    let mut fx = vec![xs[0]];
+    for i in 1..n {
+        let prev: f64 = fx[i - 1];
+        fx.push(if xs[i] > prev { xs[i] } else { prev });
+    }
+    let out_of_order = (1..n).any(|i| xs[i] < fx[i - 1]);
+    let sub_eps = (1..n).any(|i| fx[i] - fx[i - 1] < f64::EPSILON);
+    let strictly = (1..n).all(|i| xs[i] - xs[i - 1] >= f64::EPSILON);
+    if out_of_order { cx.class(0); }
+    if sub_eps { cx.class(1); }
+    if strictly { cx.class(2); }
+    if (1..n).any(|i| { let d = fx[i] - fx[i - 1]; d >= f64::EPSILON && d <= 2.0 * f64::EPSILON }) { cx.class(3); }
+    if out_of_order || sub_eps { cx.nontrivial(); }
+    if cx.sampling() {
+        cx.sample(json!({"knots_x": fjs(&xs), "knots_y": ys}));
+    }
+    if pw.segments.len() != n - 1 {
+        return Err(Fail::new("linear() does not return one segment per consecutive knot pair", detail(json!({"segments": pw.segments.len()}))));
+    }
+    let ends: Vec<f64> = pw.segments.iter().map(|s| s.end).collect();
+    if let Some(c) = pw.segments.iter().flat_map(|s| s.poly.0.iter()).find(|c| !c.is_finite()) {
+        return Err(Fail::new("linear() returned a non-finite coefficient for finite knots", detail(json!({"coefficient": fj(*c)}))));
+    }
+    for i in 0..n - 1 {
+        if ends[i].to_bits() != fx[i + 1].to_bits() {
+            return Err(Fail::new("segment ends are not the running maximum of the knot abscissae", detail(json!({"ends": fjs(&ends), "expected": fjs(&fx[1..])}))));
+        }
+        let c = pw.segments[i].poly.0;
+        let val = |x: f64| dy(c[0]).add(&dy(c[1]).mul(&dy(x))).to_q();
+        let dx = q(fx[i + 1]).sub(&q(fx[i]));
+        let wide = !dx.lt(&q(f64::EPSILON));
+        let m = if wide { q(ys[i + 1]).sub(&q(ys[i])).div(&dx) } else { Q::zero() };
+        let t = tol(ys[i], ys[i + 1], &m, fx[i], fx[i + 1], 0.0);
+        let e0 = val(fx[i]).sub(&q(ys[i])).abs();
+        if !e0.le(&t) {
+            return Err(Fail::new("segment does not pass through its (abscissa-forced) left knot", detail(json!({"segment": i, "coefficients": fjs(&c), "value_at_left~": val(fx[i]).to_f64(), "tolerance~": t.to_f64()}))));
+        }
+        if wide {
+            let e1 = val(fx[i + 1]).sub(&q(ys[i + 1])).abs();
+            if !t.is_zero() { cx.ratio(e1.to_f64() / t.to_f64()); }
+            if !e1.le(&t) {
+                return Err(Fail::new("segment at least machine-epsilon wide does not pass through its right knot", detail(json!({"segment": i, "coefficients": fjs(&c), "value_at_right~": val(fx[i + 1]).to_f64(), "tolerance~": t.to_f64()}))));
+            }
+        } else if c[1] != 0.0 || c[0] != ys[i] {
+            return Err(Fail::new("segment narrower than machine epsilon is not the constant at its left ordinate", detail(json!({"segment": i, "coefficients": fjs(&c)}))));
+        }
+    }
+    if strictly {
+        // evaluated through the real Piecewise::evaluate: interpolant between knots, ordinate at knots, extrapolation outside
+        let mut queries: Vec<f64> = order_alphabet(&ends).into_iter().filter(|x| x.is_finite() && x.abs() <= 1e7).collect();
+        queries.extend(fx.windows(2).map(|w| w[0] * 0.5 + w[1] * 0.5));
+        queries.push(fx[0]);
+        queries.push(fx[0] - 1.0);
+        for x in queries {
+            let j = ref_index(&ends, x);
+            let dx = q(fx[j + 1]).sub(&q(fx[j]));
+            let m = q(ys[j + 1]).sub(&q(ys[j])).div(&dx);
+            let want = q(ys[j]).add(&m.mul(&q(x).sub(&q(fx[j]))));
+            let got = pw.evaluate(x);
+            cx.evals(1);
+            let t = tol(ys[j], ys[j + 1], &m, fx[j], fx[j + 1], x).mul_i(2);
+            if !got.is_finite() || !q(got).sub(&want).abs().le(&t) {
+                return Err(Fail::new("linear(knots) evaluated at x is not the straight line through the bracketing knots", detail(json!({"x": fj(x), "bracketing_segment": j, "got": fj(got), "exact~": want.to_f64(), "tolerance~": t.to_f64()}))));
+            }
+        }
+        for k in 0..n {
+            let got = pw.evaluate(fx[k]);
+            let j = if k == 0 { 0 } else { k - 1 };
+            let jj = ref_index(&ends, fx[k]);
+            let dx = q(fx[jj + 1]).sub(&q(fx[jj]));
+            let m = q(ys[jj + 1]).sub(&q(ys[jj])).div(&dx);
+            let t = tol(ys[j], ys[j + 1], &m, fx[jj], fx[jj + 1], 0.0).mul_i(2);
+            if !q(got).sub(&q(ys[k])).abs().le(&t) {
+                return Err(Fail::new("linear(knots) evaluated at a knot is not that knot's ordinate", detail(json!({"knot": k, "got": fj(got), "tolerance~": t.to_f64()}))));
+            }
+        }
+    }
+    Ok(())
+}
+
 pub fn check(thorough: bool, _seed: u64) -> Check {
     let xa = xs_alpha();
     let nx = xa.len();
@@ -31,103 +122,48 @@ pub fn check(thorough: bool, _seed: u64) -> Check {
                 xs.push(*cx.pick(&xa));
             }
             let ys: Vec<f64> = (0..n).map(|_| *cx.pick(&YS)).collect();
-            let knots: Vec<Knot> = xs.iter().zip(&ys).map(|(&x, &y)| Knot { x, y }).collect();
-            let detail = |obs: serde_json::Value| json!({"knots_x": fjs(&xs), "knots_y": fjs(&ys), "observation": obs});
-            let r = guard(|| linear(&knots));
-            cx.evals(1);
-            let pw = match r {
-                Ok(p) => p,
-                Err(p) => return Err(Fail::new(format!("linear() panicked on >= 2 finite knots: {p}"), detail(json!(p)))),
-            };
-            // forced abscissae = running maximum
-            let mut fx = vec![xs[0]];
-            for i in 1..n {
-                let prev: f64 = fx[i - 1];
-                fx.push(if xs[i] > prev { xs[i] } else { prev });
-            }
-            let out_of_order = (1..n).any(|i| xs[i] < fx[i - 1]);
-            let sub_eps = (1..n).any(|i| fx[i] - fx[i - 1] < f64::EPSILON);
-            let strictly = (1..n).all(|i| xs[i] - xs[i - 1] >= f64::EPSILON);
-            if out_of_order { cx.class(0); }
-            if sub_eps { cx.class(1); }
-            if strictly { cx.class(2); }
-            if (1..n).any(|i| { let d = fx[i] - fx[i - 1]; d >= f64::EPSILON && d <= 2.0 * f64::EPSILON }) { cx.class(3); }
-            if out_of_order || sub_eps { cx.nontrivial(); }
-            if cx.sampling() {
-                cx.sample(json!({"knots_x": fjs(&xs), "knots_y": ys}));
-            }
-            if pw.segments.len() != n - 1 {
-                return Err(Fail::new("linear() does not return one segment per consecutive knot pair", detail(json!({"segments": pw.segments.len()}))));
-            }
-            let ends: Vec<f64> = pw.segments.iter().map(|s| s.end).collect();
-            if let Some(c) = pw.segments.iter().flat_map(|s| s.poly.0.iter()).find(|c| !c.is_finite()) {
-                return Err(Fail::new("linear() returned a non-finite coefficient for finite knots", detail(json!({"coefficient": fj(*c)}))));
-            }
-            for i in 0..n - 1 {
-                if ends[i].to_bits() != fx[i + 1].to_bits() {
-                    return Err(Fail::new("segment ends are not the running maximum of the knot abscissae", detail(json!({"ends": fjs(&ends), "expected": fjs(&fx[1..])}))));
-                }
-                let c = pw.segments[i].poly.0;
-                let val = |x: f64| dy(c[0]).add(&dy(c[1]).mul(&dy(x))).to_q();
-                let dx = q(fx[i + 1]).sub(&q(fx[i]));
-                let wide = !dx.lt(&q(f64::EPSILON));
-                let m = if wide { q(ys[i + 1]).sub(&q(ys[i])).div(&dx) } else { Q::zero() };
-                let t = tol(ys[i], ys[i + 1], &m, fx[i], fx[i + 1], 0.0);
-                let e0 = val(fx[i]).sub(&q(ys[i])).abs();
-                if !e0.le(&t) {
-                    return Err(Fail::new("segment does not pass through its (abscissa-forced) left knot", detail(json!({"segment": i, "coefficients": fjs(&c), "value_at_left~": val(fx[i]).to_f64(), "tolerance~": t.to_f64()}))));
-                }
-                if wide {
-                    let e1 = val(fx[i + 1]).sub(&q(ys[i + 1])).abs();
-                    if !t.is_zero() { cx.ratio(e1.to_f64() / t.to_f64()); }
-                    if !e1.le(&t) {
-                        return Err(Fail::new("segment at least machine-epsilon wide does not pass through its right knot", detail(json!({"segment": i, "coefficients": fjs(&c), "value_at_right~": val(fx[i + 1]).to_f64(), "tolerance~": t.to_f64()}))));
-                    }
-                } else if c[1] != 0.0 || c[0] != ys[i] {
-                    return Err(Fail::new("segment narrower than machine epsilon is not the constant at its left ordinate", detail(json!({"segment": i, "coefficients": fjs(&c)}))));
-                }
-            }
-            if strictly {
-                // evaluated through the real Piecewise::evaluate: interpolant between knots, ordinate at knots, extrapolation outside
-                let mut queries: Vec<f64> = order_alphabet(&ends).into_iter().filter(|x| x.is_finite() && x.abs() <= 1e7).collect();
-                queries.extend(fx.windows(2).map(|w| w[0] * 0.5 + w[1] * 0.5));
-                queries.push(fx[0]);
-                queries.push(fx[0] - 1.0);
-                for x in queries {
-                    let j = ref_index(&ends, x);
-                    let dx = q(fx[j + 1]).sub(&q(fx[j]));
-                    let m = q(ys[j + 1]).sub(&q(ys[j])).div(&dx);
-                    let want = q(ys[j]).add(&m.mul(&q(x).sub(&q(fx[j]))));
-                    let got = pw.evaluate(x);
-                    cx.evals(1);
-                    let t = tol(ys[j], ys[j + 1], &m, fx[j], fx[j + 1], x).mul_i(2);
-                    if !got.is_finite() || !q(got).sub(&want).abs().le(&t) {
-                        return Err(Fail::new("linear(knots) evaluated at x is not the straight line through the bracketing knots", detail(json!({"x": fj(x), "bracketing_segment": j, "got": fj(got), "exact~": want.to_f64(), "tolerance~": t.to_f64()}))));
-                    }
-                }
-                for k in 0..n {
-                    let got = pw.evaluate(fx[k]);
-                    let j = if k == 0 { 0 } else { k - 1 };
-                    let jj = ref_index(&ends, fx[k]);
-                    let dx = q(fx[jj + 1]).sub(&q(fx[jj]));
-                    let m = q(ys[jj + 1]).sub(&q(ys[jj])).div(&dx);
-                    let t = tol(ys[j], ys[j + 1], &m, fx[jj], fx[jj + 1], 0.0).mul_i(2);
-                    if !q(got).sub(&q(ys[k])).abs().le(&t) {
-                        return Err(Fail::new("linear(knots) evaluated at a knot is not that knot's ordinate", detail(json!({"knot": k, "got": fj(got), "tolerance~": t.to_f64()}))));
-                    }
-                }
-            }
-            Ok(())
+            check_list(&xs, &ys, cx)
         }),
         classes: vec![("out_of_order_abscissa", true), ("sub_epsilon_step", true), ("strictly_increasing_with_gaps>=eps", true), ("step_of_exactly_eps_or_2eps", true)],
         bounds: json!({"knots": format!("every knot list of length 2..{maxn}: abscissae in {{0,pred(1),1,1+2^-52,1+2^-51,2,-1,1e6,succ(1e6),3,succ(3)}}^n x ordinates in {{-1,0,2.5}}^n"),
             "queries": "for strictly increasing lists: finite part of A(ends), interval midpoints, every knot", "oracle": "running maximum; exact rational line; tolerance 2^6*2^-53*(|y_i|+|y_i+1|+|m|(|X_i|+|X_i+1|+|x|))"}),
     };
+    let sizes: Vec<usize> = [8usize, 9, 16, 17, 33, 65].into_iter().chain(if thorough { vec![10usize, 32, 64, 129, 257, 1025] } else { vec![] }).collect();
+    let ns = sizes.len();
+    let long = Phase {
+        name: "long-knot-lists",
+        units: ns,
+        split: 0,
+        body: Box::new(move |unit, cx| {
+            let n = sizes[unit];
+            let xp = cx.choose(7);
+            let off = [0.0, -7.5, 1e6][cx.choose(3)];
+            let xs: Vec<f64> = (0..n)
+                .map(|i| {
+                    let i_f = i as f64;
+                    off + match xp {
+                        0 => i_f,                                             // unit steps
+                        1 => (i / 2) as f64,                                  // every abscissa repeated once
+                        2 => if i % 3 == 2 { i_f - 2.5 } else { i_f },        // a step back every third knot
+                        3 => 1e-3 * 1.5f64.powi((i % 40) as i32) + (i / 40) as f64 * 2e4, // geometric gaps
+                        4 => 1.0 + i_f * f64::EPSILON,                        // steps of exactly machine epsilon (at offset 0)
+                        5 => if i % 4 == 3 { 0.0 } else { i_f * 0.25 },       // periodic return to the start (far out of order)
+                        _ => i_f * i_f * 1e-3,                                // growing gaps
+                    }
+                })
+                .collect();
+            let yp = cx.choose(3);
+            let ys: Vec<f64> = (0..n).map(|i| match yp { 0 => i as f64 * 0.5 - 3.0, 1 => if i % 2 == 0 { 2.5 } else { -1.0 }, _ => (((i * 7919) % 13) as f64) - 6.0 }).collect();
+            check_list(&xs, &ys, cx)
+        }),
+        classes: vec![("out_of_order_abscissa", false), ("sub_epsilon_step", false), ("strictly_increasing_with_gaps>=eps", false), ("step_of_exactly_eps_or_2eps", false)],
+        bounds: json!({"knots": "n = 8,9,16,17,33,65 (also 10,32,64,129,257,1025 thorough) x 7 abscissa patterns (unit steps, repeated, periodic back steps, geometric, epsilon steps, periodic return to start, growing gaps) x offsets {0,-7.5,1e6} x 3 ordinate patterns"}),
+    };
     Check {
         id: "C06",
         rule: "choice tree: (length, first two abscissae) unit x remaining abscissae x ordinates; each leaf is one knot list run through the real linear() (and Piecewise::evaluate of its result); non-trivial = list with an out-of-order or sub-epsilon step".into(),
         assumptions: vec![],
-        phases: vec![ph],
+        phases: vec![ph, long],
         extra: Default::default(),
         controls: vec![],
     }
